@@ -191,6 +191,8 @@ def targets : Stmt → List Nat
   | .remove y x _ _ => [x, y]
   | .consume y x _ => [x, y]
   | .swap x _ y _ => [x, y]
+  | .update y _ _ _ => [y]
+  | .callAppend y _ _ => [y]
 
 theorem get_set_ne (σ : Store) (x z : Nat) (t : Tree) (h : z ≠ x) : Store.get (σ.set x t) z = Store.get σ z := by
   simp [Store.get, List.getD, List.getElem?_set_ne (Ne.symm h)]
@@ -244,6 +246,18 @@ theorem spec_others_unchanged (σ : Store) (st : Stmt) (z : Nat) (hz : z ∉ tar
         · rfl
         · split <;> simp [get_set_ne _ _ _ _ h.1, get_set_ne _ _ _ _ h.2]
       · rfl
+    · rfl
+  | update y x i a =>
+    have hy : z ≠ y := by simpa [targets] using hz
+    simp only [Store.step]
+    split
+    · split <;> simp [get_set_ne _ _ _ _ hy]
+    · rfl
+  | callAppend y x a =>
+    have hy : z ≠ y := by simpa [targets] using hz
+    simp only [Store.step]
+    split
+    · split <;> simp [get_set_ne _ _ _ _ hy]
     · rfl
 
 theorem cell_rep {s : State} {σ : Store} (R : Refines s σ) (z : Nat) : Rep s.h (cellOf s z) (Store.get σ z) := by
